@@ -62,6 +62,8 @@ def cell_value(c):
 
 
 def run(ctx):
+    from .common import array_hazard_sweep
+    array_hazard_sweep(ctx, "R3", ("nsf",), "the lengths served for a wavelength grid then depend on what was asked before with the same array")
     F = folder(ctx)
     site = fsite(ctx, "nsf.init")
     E = [sp.Integer(1), sp.Integer(2), sp.Integer(4)]      # concrete, increasing energies (eV)
